@@ -117,22 +117,31 @@ def script(pydsdl, t) -> dict:
             "expands": total[2], "wall": wall, "answers": out}
 
 
-def scale(t, huge: bool, rng):
-    """Same shape; capacities are multiples of 256 and extents multiples of 2048 at the requested scale, so that every
-    repetition count is >= 2*32 and congruent modulo 32 at both scales (the library's `equivalent k` coincides)."""
+def scale(t, level: int, rng):
+    """Same shape at one of three capacity scales: 0 = a few hundred, 1 = just above 2**32, 2 = 2**42 .. 2**63.
+    Capacities are multiples of 256 and extents multiples of 2048 at every scale, so every repetition count is
+    >= 2*32 and congruent modulo 32 (the library's `equivalent k` coincides); scales 1 and 2 also need the same
+    (64-bit) length prefixes, so their layouts differ in nothing but the counts."""
     k = t[0]
     if k in ("prim", "void"):
         return t
     if k in ("farr", "varr"):
-        cap = 256 * (rng.choice([2**34, 2**44, 2**53, 2**55]) if huge else rng.choice([1, 2, 3, 5]))
-        return [k, scale(t[1], huge, rng), cap]
+        m = [rng.choice([1, 2, 3, 5]), 2**24 + rng.choice([1, 2, 3, 5]), rng.choice([2**34, 2**44, 2**53, 2**55])][level]
+        return [k, scale(t[1], level, rng), 256 * m]
     if k in ("struct", "union"):
-        return [k, [scale(f, huge, rng) for f in t[1]]]
-    inner = scale(t[1], huge, rng)
+        return [k, [scale(f, level, rng) for f in t[1]]]
+    inner = scale(t[1], level, rng)
     nodes: list = []
     mx = B.o_max(nodes, L.s_nodes(L.strip(inner), nodes))
-    ext = -(-mx // 2048) * 2048 + 2048 * (2**45 if huge else 1)
+    ext = -(-mx // 2048) * 2048 + 2048 * [1, 2**22, 2**45][level]
     return ["delim", inner, ext]
+
+
+def instantiate(shape, sseed: int) -> dict:
+    out = {"shape": shape, "sseed": sseed}
+    for key, level in (("ty", 0), ("ty2", 2), ("ty3", 1)):
+        out[key] = scale(shape, level, random.Random(sseed))
+    return out
 
 
 def gen_shape(rng, depth, top=False):
@@ -165,17 +174,15 @@ def predicted_cost(t) -> int:
 def gen_case(rng, prop):
     for _ in range(200):
         shape = gen_shape(rng, rng.choice([1, 2, 2, 3, 3, 4]), top=True)
-        r2 = random.Random(rng.random())
         try:
-            a = scale(shape, False, r2)
-            b = scale(shape, True, r2)
-            if not (L.s_valid(L.strip(a)) and L.s_valid(L.strip(b))):
+            c = instantiate(shape, rng.randrange(10**6))
+            if not all(L.s_valid(L.strip(c[k])) for k in ("ty", "ty2", "ty3")):
                 continue
-            if predicted_cost(b) > 60_000 or predicted_cost(a) > 60_000:
+            if max(predicted_cost(c[k]) for k in ("ty", "ty2", "ty3")) > 60_000:
                 continue
         except Exception:
             continue
-        return {"ty": a, "ty2": b}
+        return c
     raise RuntimeError("generator failed")
 
 
@@ -195,22 +202,19 @@ class CostSuite(common.Suite):
             ["struct", [["varr", ["delim", ["struct", [u8]], 0], 1]]],
             ["delim", ["struct", [["varr", ["struct", [["varr", u8, 1], b1]], 1]]], 0],
         ]
-        out = []
-        for i, sh in enumerate(shapes):
-            r = random.Random(i)
-            out.append({"ty": scale(sh, False, r), "ty2": scale(sh, True, r)})
-        return out
+        return [instantiate(sh, i) for i, sh in enumerate(shapes)]
 
     def run_impl(self, case):
         pydsdl = common.import_pydsdl()
         try:
             a = script(pydsdl, case["ty"])
             b = script(pydsdl, case["ty2"])
+            m = script(pydsdl, case["ty3"])
         except pydsdl.InvalidDefinitionError as ex:
             return {"res": "rejected", "soft": str(ex)[:200]}
         except Exception as ex:
             return {"res": "exc:" + type(ex).__name__, "soft": str(ex)[:200]}
-        return {"res": "ok", "a": a, "b": b}
+        return {"res": "ok", "a": a, "b": b, "m": m}
 
     def model_case(self, case):
         return {"id": case["id"], "ty": L.strip(case["ty"]), "ty2": L.strip(case["ty2"])}
@@ -230,28 +234,38 @@ class CostSuite(common.Suite):
     def oracle(self, case, impl, prop):
         if impl.get("res") != "ok":
             return "valid type not analysed: %s %s" % (impl.get("res"), impl.get("soft"))
-        a, b = impl["a"], impl["b"]
-        if a["expands"] or b["expands"]:
-            return "numerical expansion was triggered %d/%d times by layout queries" % (a["expands"], b["expands"])
+        a, b, m = impl["a"], impl["b"], impl["m"]
+        if a["expands"] or b["expands"] or m["expands"]:
+            return "numerical expansion was triggered %d/%d/%d times by layout queries" % (a["expands"], m["expands"], b["expands"])
         for key in ("items", "leaf", "build_items", "build_leaf"):
-            if b[key] > a[key]:
-                return "work grows with capacity: %s is %d for capacities of a few hundred and %d for capacities up to 2**63" % (key, a[key], b[key])
+            # capacities just above 2**32 and up to 2**63 give identical layouts up to the counts: no growth at all
+            if b[key] > m[key]:
+                return "work grows with capacity: %s is %d for capacities just above 2**32 and %d for capacities up to 2**63" % (key, m[key], b[key])
+            # (capacities of a few hundred get narrower length prefixes, hence other residues: their work is compared
+            #  with the model's cost only, see compare())
         if b["items"] + b["leaf"] + b["build_items"] + b["build_leaf"] > WORK_BUDGET:
             return "analysis enumerated %d items (budget %d)" % (b["items"] + b["leaf"] + b["build_items"] + b["build_leaf"], WORK_BUDGET)
-        if b["wall"] > TIME_BUDGET_S:
-            return "analysis took %.1f s" % b["wall"]
-        if a["answers"][3:] != b["answers"][3:]:
-            # fixed_length / alignment answers do not depend on the scale when capacities stay congruent mod 64
-            return "alignment answers differ between scales: %s vs %s" % (a["answers"][3:], b["answers"][3:])
+        if max(a["wall"], b["wall"], m["wall"]) > TIME_BUDGET_S:
+            return "analysis took %.1f s" % max(a["wall"], b["wall"], m["wall"])
+        if m["answers"][3:] != b["answers"][3:]:
+            return "alignment answers differ between capacity scales: %s vs %s" % (m["answers"][3:], b["answers"][3:])
         return None
 
     def signature(self, case, desc, prop):
         return "cost/" + desc.split(":")[0][:40]
 
     def shrink(self, case):
-        for t2a, t2b in zip(L.shrink_ty(case["ty"]), L.shrink_ty(case["ty2"])):
-            if L.strip(t2a)[0] == L.strip(t2b)[0]:
-                yield {"ty": t2a, "ty2": t2b}
+        if "shape" not in case:
+            return
+        for sh in L.shrink_ty(case["shape"]):
+            if sh[0] not in ("struct", "union", "delim", "farr", "varr"):
+                continue
+            try:
+                c = instantiate(sh, case.get("sseed", 0))
+                if all(L.s_valid(L.strip(c[k])) for k in ("ty", "ty2", "ty3")):
+                    yield c
+            except Exception:
+                continue
 
     def features(self, case, impl):
         for k in set(L.kinds(case["ty2"])):
